@@ -22,67 +22,69 @@ namespace ChibiVerif.C01
 open ChibiVerif.X86 ChibiVerif.Asm ChibiVerif.Spec.IntSpec ChibiVerif.Gen.CommonType ChibiVerif.C01Codegen ChibiVerif.X86J
 
 section
-variable {off toff : Nat → Int} {K : Nat}
+variable {P : BitVec 64 → Prop} {off toff : Nat → Int} {K : Nat}
 
-/-- **the judgment for code with jumps** -/
-def EvJ (off toff : Nat → Int) (K : Nat) (code : List JI) (σ σ' : Env) (R : BitVec 64 → Prop) (W : List Nat)
+/-- **the judgment for code with jumps**.  `P` restricts the machine states to those whose `%rbp` satisfies it (`fun _ => True`
+    for expressions over variables; `· = bp` when the store holds absolute addresses of the frame: Lemmas/C01Lvalue.lean);
+    `%rbp` never changes, so every combinator passes it on. -/
+def EvJ (P : BitVec 64 → Prop) (off toff : Nat → Int) (K : Nat) (code : List JI) (σ σ' : Env) (R : BitVec 64 → Prop) (W : List Nat)
     (k0 k1 d : Nat) : Prop :=
   σ'.tys = σ.tys ∧
-  ∀ (m : State) (n B : Nat), Lay σ.tys off toff K B (m.get .rbp) → d ≤ n → 8 * n ≤ (m.get .rsp).toNat →
+  ∀ (m : State) (n B : Nat), P (m.get .rbp) → Lay σ.tys off toff K B (m.get .rbp) → d ≤ n → 8 * n ≤ (m.get .rsp).toNat →
     (m.get .rsp).toNat ≤ B → Holds off σ m →
     ∃ m', JRun code m m' ∧ R (m'.get .rax) ∧ Holds off σ' m' ∧ Unch σ.tys off toff W k0 k1 m m'
 
 /-- every fact about straight-line code carries over -/
 theorem EvJ.of_EvX {c : List Ins} {σ σ' : Env} {R : BitVec 64 → Prop} {W : List Nat} {k0 k1 d : Nat}
-    (h : EvX off toff K c σ σ' R W k0 k1 d) : EvJ off toff K (J c) σ σ' R W k0 k1 d := by
+    (h : EvX off toff K c σ σ' R W k0 k1 d) : EvJ P off toff K (J c) σ σ' R W k0 k1 d := by
   refine ⟨h.1, ?_⟩
-  intro m n B l hd hsp hB hH
+  intro m n B _ l hd hsp hB hH
   obtain ⟨m1, r1, p1, H1, u1⟩ := h.2 m n B l hd hsp hB hH
   exact ⟨m1, JRun.ins r1, p1, H1, u1⟩
 
 /-- continue with a piece of code (possibly with jumps) that only touches registers and flags -/
 theorem EvJ.then_jrun {c c2 : List JI} {σ σ' : Env} {R R2 : BitVec 64 → Prop} {W : List Nat} {k0 k1 d : Nat}
-    (h : EvJ off toff K c σ σ' R W k0 k1 d)
+    (h : EvJ P off toff K c σ σ' R W k0 k1 d)
     (h2 : ∀ s, R (s.get .rax) → ∃ s', JRun c2 s s' ∧ R2 (s'.get .rax) ∧ Same s s') :
-    EvJ off toff K (c ++ c2) σ σ' R2 W k0 k1 d := by
+    EvJ P off toff K (c ++ c2) σ σ' R2 W k0 k1 d := by
   refine ⟨h.1, ?_⟩
-  intro m n B l hd hsp hB hH
-  obtain ⟨m1, r1, p1, H1, u1⟩ := h.2 m n B l hd hsp hB hH
+  intro m n B hP l hd hsp hB hH
+  obtain ⟨m1, r1, p1, H1, u1⟩ := h.2 m n B hP l hd hsp hB hH
   obtain ⟨m2, r2, p2, s2⟩ := h2 m1 p1
   exact ⟨m2, JRun.append r1 r2, p2, H1.same s2, u1.trans (s2.unch _ _ _)⟩
 
 theorem EvJ.then_same {c : List JI} {c2 : List Ins} {σ σ' : Env} {R R2 : BitVec 64 → Prop} {W : List Nat} {k0 k1 d : Nat}
-    (h : EvJ off toff K c σ σ' R W k0 k1 d)
+    (h : EvJ P off toff K c σ σ' R W k0 k1 d)
     (h2 : ∀ s, R (s.get .rax) → ∃ s', X86.run c2 s = some s' ∧ R2 (s'.get .rax) ∧ Same s s') :
-    EvJ off toff K (c ++ J c2) σ σ' R2 W k0 k1 d :=
+    EvJ P off toff K (c ++ J c2) σ σ' R2 W k0 k1 d :=
   h.then_jrun (fun s hs => by obtain ⟨s', r, p, sm⟩ := h2 s hs; exact ⟨s', JRun.ins r, p, sm⟩)
 
 theorem EvJ.weaken {c : List JI} {σ σ' : Env} {R : BitVec 64 → Prop} {W W' : List Nat} {k0 k1 k0' k1' d d' : Nat}
-    (h : EvJ off toff K c σ σ' R W k0 k1 d) (hs : ∀ i, i ∈ W → i ∈ W') (h0 : k0' ≤ k0) (h1 : k1 ≤ k1') (hd : d ≤ d') :
-    EvJ off toff K c σ σ' R W' k0' k1' d' := by
+    (h : EvJ P off toff K c σ σ' R W k0 k1 d) (hs : ∀ i, i ∈ W → i ∈ W') (h0 : k0' ≤ k0) (h1 : k1 ≤ k1') (hd : d ≤ d') :
+    EvJ P off toff K c σ σ' R W' k0' k1' d' := by
   refine ⟨h.1, ?_⟩
-  intro m n B l hdn hsp hB hH
-  obtain ⟨m1, r1, p1, H1, u1⟩ := h.2 m n B l (by omega) hsp hB hH
+  intro m n B hP l hdn hsp hB hH
+  obtain ⟨m1, r1, p1, H1, u1⟩ := h.2 m n B hP l (by omega) hsp hB hH
   exact ⟨m1, r1, p1, H1, u1.mono hs h0 h1⟩
 
 /-- a weaker postcondition on `%rax` -/
 theorem EvJ.post {c : List JI} {σ σ' : Env} {R R2 : BitVec 64 → Prop} {W : List Nat} {k0 k1 d : Nat}
-    (h : EvJ off toff K c σ σ' R W k0 k1 d) (hr : ∀ r, R r → R2 r) : EvJ off toff K c σ σ' R2 W k0 k1 d := by
+    (h : EvJ P off toff K c σ σ' R W k0 k1 d) (hr : ∀ r, R r → R2 r) : EvJ P off toff K c σ σ' R2 W k0 k1 d := by
   refine ⟨h.1, ?_⟩
-  intro m n B l hdn hsp hB hH
-  obtain ⟨m1, r1, p1, H1, u1⟩ := h.2 m n B l hdn hsp hB hH
+  intro m n B hP l hdn hsp hB hH
+  obtain ⟨m1, r1, p1, H1, u1⟩ := h.2 m n B hP l hdn hsp hB hH
   exact ⟨m1, r1, hr _ p1, H1, u1⟩
 
 theorem EvJ.seq {ca cb : List JI} {σ σ1 σ2 : Env} {Ra Rb : BitVec 64 → Prop} {Wa Wb : List Nat}
     {k0 k1 ka0 ka1 kb0 kb1 da db : Nat}
-    (ha : EvJ off toff K ca σ σ1 Ra Wa ka0 ka1 da) (hb : EvJ off toff K cb σ1 σ2 Rb Wb kb0 kb1 db)
+    (ha : EvJ P off toff K ca σ σ1 Ra Wa ka0 ka1 da) (hb : EvJ P off toff K cb σ1 σ2 Rb Wb kb0 kb1 db)
     (hk : k0 ≤ ka0 ∧ ka1 ≤ k1 ∧ k0 ≤ kb0 ∧ kb1 ≤ k1) :
-    EvJ off toff K (ca ++ cb) σ σ2 Rb (Wa ++ Wb) k0 k1 (max da db) := by
+    EvJ P off toff K (ca ++ cb) σ σ2 Rb (Wa ++ Wb) k0 k1 (max da db) := by
   refine ⟨hb.1.trans ha.1, ?_⟩
-  intro m n B l hd hsp hB hH
-  obtain ⟨m1, r1, _, H1, u1⟩ := ha.2 m n B l (by omega) hsp hB hH
+  intro m n B hP l hd hsp hB hH
+  obtain ⟨m1, r1, _, H1, u1⟩ := ha.2 m n B hP l (by omega) hsp hB hH
   have l1 : Lay σ1.tys off toff K B (m1.get .rbp) := by rw [ha.1, u1.rbp]; exact l
-  obtain ⟨m2, r2, p2, H2, u2⟩ := hb.2 m1 n B l1 (by omega) (by rw [u1.rsp]; exact hsp) (by rw [u1.rsp]; exact hB) H1
+  obtain ⟨m2, r2, p2, H2, u2⟩ := hb.2 m1 n B (by rw [u1.rbp]; exact hP) l1 (by omega) (by rw [u1.rsp]; exact hsp) (by rw [u1.rsp]; exact hB) H1
   rw [ha.1] at u2
   exact ⟨m2, JRun.append r1 r2, p2, H2,
     (u1.mono (fun i hi => List.mem_append_left _ hi) hk.1 hk.2.1).trans
@@ -91,21 +93,21 @@ theorem EvJ.seq {ca cb : List JI} {σ σ1 σ2 : Env} {Ra Rb : BitVec 64 → Prop
 /-- **binary node**, operands possibly with jumps: right operand, `push`, left operand one slot deeper, `pop %rdi`, operator -/
 theorem EvJ.bin {cr cl : List JI} {cop : List Ins} {σ σr σl : Env} {Rr Rl Rres : BitVec 64 → Prop} {Wr Wl : List Nat}
     {k0 k1 kr0 kr1 kl0 kl1 dr dl : Nat}
-    (hr : EvJ off toff K cr σ σr Rr Wr kr0 kr1 dr) (hl : EvJ off toff K cl σr σl Rl Wl kl0 kl1 dl)
+    (hr : EvJ P off toff K cr σ σr Rr Wr kr0 kr1 dr) (hl : EvJ P off toff K cl σr σl Rl Wl kl0 kl1 dl)
     (hop : ∀ s, Rl (s.get .rax) → Rr (s.get .rdi) → ∃ s', X86.run cop s = some s' ∧ Rres (s'.get .rax) ∧ Same s s')
     (hk : k0 ≤ kr0 ∧ kr1 ≤ k1 ∧ k0 ≤ kl0 ∧ kl1 ≤ k1) (hK : k1 ≤ K) :
-    EvJ off toff K (cr ++ (JI.ins iPush :: (cl ++ (JI.ins iPopRdi :: J cop)))) σ σl Rres (Wr ++ Wl) k0 k1 (max dr (dl + 1)) := by
+    EvJ P off toff K (cr ++ (JI.ins iPush :: (cl ++ (JI.ins iPopRdi :: J cop)))) σ σl Rres (Wr ++ Wl) k0 k1 (max dr (dl + 1)) := by
   refine ⟨hl.1.trans hr.1, ?_⟩
-  intro m n B l hd hsp hB hH
+  intro m n B hP l hd hsp hB hH
   obtain ⟨n', rfl⟩ : ∃ n', n = n' + 1 := ⟨n - 1, by omega⟩
-  obtain ⟨m1, r1, p1, H1, u1⟩ := hr.2 m (n' + 1) B l (by omega) hsp hB hH
+  obtain ⟨m1, r1, p1, H1, u1⟩ := hr.2 m (n' + 1) B hP l (by omega) hsp hB hH
   have h8 : 8 ≤ (m1.get .rsp).toNat := by rw [u1.rsp]; omega
   obtain ⟨m2, r2, sp2, bp2, ax2, top2, spn2, mem2⟩ := push_rax m1 h8
   have l1 : Lay σr.tys off toff K B (m1.get .rbp) := by rw [hr.1, u1.rbp]; exact l
   have H2 : Holds off σr m2 := H1.of_ge l1 bp2 (fun x hx => mem2 x (Or.inr (by rw [u1.rsp]; omega)))
   have l2 : Lay σr.tys off toff K B (m2.get .rbp) := by rw [bp2]; exact l1
   obtain ⟨m3, r3, p3, H3, u3⟩ :=
-    hl.2 m2 n' B l2 (by omega) (by rw [spn2, u1.rsp]; omega) (by rw [spn2, u1.rsp]; omega) H2
+    hl.2 m2 n' B (by rw [bp2, u1.rbp]; exact hP) l2 (by omega) (by rw [spn2, u1.rsp]; omega) (by rw [spn2, u1.rsp]; omega) H2
   obtain ⟨m4, r4, di4, sp4, bp4, ax4, mem4⟩ := pop_rdi m3
   have htop : m3.read64 (m3.get .rsp) = m1.get .rax := by
     rw [u3.rsp, sp2, ← top2]
@@ -135,11 +137,11 @@ theorem EvJ.bin {cr cl : List JI} {cop : List Ins} {σ σr σl : Env} {Rr Rl Rre
 
 /-- **assignment to a variable**, value possibly computed with jumps -/
 theorem EvJ.assign {c : List JI} {σ σ1 : Env} {W : List Nat} {k0 k1 d i : Nat} {ti : ITy} {v' : Int}
-    (hti : σ.tys[i]? = some ti) (he : EvJ off toff K c σ σ1 (fun r => Represents ti r v') W k0 k1 d) (hK : k1 ≤ K) :
-    EvJ off toff K (JI.ins (iLea (off i)) :: JI.ins iPush :: (c ++ J (storeSeq ti))) σ (σ1.set i v')
+    (hti : σ.tys[i]? = some ti) (he : EvJ P off toff K c σ σ1 (fun r => Represents ti r v') W k0 k1 d) (hK : k1 ≤ K) :
+    EvJ P off toff K (JI.ins (iLea (off i)) :: JI.ins iPush :: (c ++ J (storeSeq ti))) σ (σ1.set i v')
       (fun r => Represents ti r v') (i :: W) k0 k1 (d + 1) := by
   refine ⟨he.1, ?_⟩
-  intro m n B l hd hsp hB hH
+  intro m n B hP l hd hsp hB hH
   obtain ⟨n', rfl⟩ : ∃ n', n = n' + 1 := ⟨n - 1, by omega⟩
   have sa : Same m (m.set .rax (m.ea (off i) .rbp)) := same_set _ _ _ rfl
   have h8 : 8 ≤ ((m.set .rax (m.ea (off i) .rbp)).get .rsp).toNat := by rw [sa.rsp]; omega
@@ -149,7 +151,7 @@ theorem EvJ.assign {c : List JI} {σ σ1 : Env} {W : List Nat} {k0 k1 d i : Nat}
   rw [State.get_set_same] at top2
   have H2 : Holds off σ m2 := hH.of_ge l bp2 (fun x hx => (mem2 x (Or.inr (by omega))).trans (congrFun sa.mem x))
   have l2 : Lay σ.tys off toff K B (m2.get .rbp) := by rw [bp2]; exact l
-  obtain ⟨m3, r3, p3, H3, u3⟩ := he.2 m2 n' B l2 (by omega) (by rw [spn2]; omega) (by rw [spn2]; omega) H2
+  obtain ⟨m3, r3, p3, H3, u3⟩ := he.2 m2 n' B (by rw [bp2]; exact hP) l2 (by omega) (by rw [spn2]; omega) (by rw [spn2]; omega) H2
   have htop : m3.read64 (m3.get .rsp) = m.ea (off i) .rbp := by
     rw [u3.rsp, sp2, ← top2]
     refine (read_congr m2 m3 _ ?_).2.2.2
@@ -199,16 +201,16 @@ theorem opAssignCodeJ_eq (nk : NK) (op : BinOp) (ti tb : ITy) (offA tmp : Int) (
 theorem EvJ.opassign {cB : List JI} {castB : List Ins} {σ σ1 : Env} {W : List Nat} {k0 k1 d i : Nat} {ti tb t tres : ITy}
     {x vb y : Int} {nk : NK} {Rr : BitVec 64 → Prop}
     (hti : σ.tys[i]? = some ti)
-    (heB : EvJ off toff K cB σ σ1 (fun r => Represents tb r vb) W k0 k1 d)
+    (heB : EvJ P off toff K cB σ σ1 (fun r => Represents tb r vb) W k0 k1 d)
     (hcastB : ∀ s, Represents tb (s.get .rax) vb → ∃ s', X86.run castB s = some s' ∧ Rr (s'.get .rax) ∧ Same s s')
     (hx : σ1.vals[i]? = some x)
     (hop : ∀ s, Represents t (s.get .rax) (convert t x) → Rr (s.get .rdi) →
       ∃ s', X86.run (opSeq nk t) s = some s' ∧ Represents tres (s'.get .rax) y ∧ Same s s')
     (hk0 : k0 ≤ k1) (hk1 : k1 < K) :
-    EvJ off toff K (opAssignNFJ nk ti t tres (off i) (toff k1) cB castB) σ (σ1.set i (convert ti y))
+    EvJ P off toff K (opAssignNFJ nk ti t tres (off i) (toff k1) cB castB) σ (σ1.set i (convert ti y))
       (fun r => Represents ti r (convert ti y)) (i :: W) k0 (k1 + 1) (max (d + 1) 2) := by
   refine ⟨heB.1, ?_⟩
-  intro m n B l hd hsp hB hH
+  intro m n B hP l hd hsp hB hH
   obtain ⟨n', rfl⟩ : ∃ n', n = n' + 2 := ⟨n - 2, by omega⟩
   -- addresses
   have hT := l.tmp_lo k1 hk1
@@ -232,7 +234,7 @@ theorem EvJ.opassign {cB : List JI} {castB : List Ins} {σ σ1 : Env} {W : List 
     refine (read64_keep hT.2 (fun x h1 _ => ?_)).trans (by rw [read64_keep hT.2 (fun x _ _ => congrFun same5.mem x)])
     exact mem6 x (Or.inr (by omega))
   -- B
-  obtain ⟨s7, r7, p7, H7, u7⟩ := heB.2 s6 (n' + 1) B l6 (by omega) (by rw [spn6]; omega) (by rw [spn6]; omega) H6
+  obtain ⟨s7, r7, p7, H7, u7⟩ := heB.2 s6 (n' + 1) B (by rw [bp6]; exact hP) l6 (by omega) (by rw [spn6]; omega) (by rw [spn6]; omega) H6
   have slotA : (m.get .rsp - 8).toNat = (m.get .rsp).toNat - 8 := by rw [← sp6]; exact spn6
   have keep7 : ∀ a : BitVec 64, (s6.get .rsp).toNat ≤ a.toNat → a.toNat + 8 ≤ 2 ^ 64 →
       (a.toNat + 8 ≤ B ∨ a = addrOf (m.get .rbp) (toff k1)) → s7.read64 a = s6.read64 a := by
@@ -372,7 +374,7 @@ theorem cmpz_run (t : ITy) (s : State) (v : Int) (h : Represents t (s.get .rax) 
 /-! ### `&&`, `||`, `?:` -/
 
 section
-variable {off toff : Nat → Int} {K : Nat}
+variable {P : BitVec 64 → Prop} {off toff : Nat → Int} {K : Nat}
 
 theorem mov_imm_same (v : Int) (t : ITy) (hr : t.inRange v) (s : State) :
     ∃ s', X86.run [iMovImm v] s = some s' ∧ Represents t (s'.get .rax) v ∧ Same s s' := by
@@ -401,8 +403,8 @@ theorem tail_run (cc : CC) (lt le : Lbl) (a b : Int) (ha : ITy.i32.inRange a) (h
 
 /-- ND_LOGAND, left operand 0: the right operand is skipped -/
 theorem EvJ.land_short {ca cb : List JI} {ta tb : ITy} {σ σ1 : Env} {Wa : List Nat} {k0 k1 d c : Nat}
-    (ha : EvJ off toff K ca σ σ1 (fun r => Represents ta r 0) Wa k0 k1 d) :
-    EvJ off toff K (landCode c ta tb ca cb) σ σ1 (fun r => Represents .i32 r 0) Wa k0 k1 d := by
+    (ha : EvJ P off toff K ca σ σ1 (fun r => Represents ta r 0) Wa k0 k1 d) :
+    EvJ P off toff K (landCode c ta tb ca cb) σ σ1 (fun r => Represents .i32 r 0) Wa k0 k1 d := by
   unfold landCode
   refine ha.then_jrun (fun s hs => ?_)
   obtain ⟨s1, r1, v1, z1, sm1, _⟩ := cmpz_run ta s 0 hs
@@ -418,17 +420,17 @@ theorem EvJ.land_short {ca cb : List JI} {ta tb : ITy} {σ σ1 : Env} {Wa : List
 /-- ND_LOGAND, left operand not 0: the value is `b != 0` -/
 theorem EvJ.land_full {ca cb : List JI} {ta tb : ITy} {va vb : Int} {σ σ1 σ2 : Env} {Wa Wb : List Nat}
     {k0 k1 ka0 ka1 kb0 kb1 da db c : Nat} (hva : va ≠ 0)
-    (ha : EvJ off toff K ca σ σ1 (fun r => Represents ta r va) Wa ka0 ka1 da)
-    (hb : EvJ off toff K cb σ1 σ2 (fun r => Represents tb r vb) Wb kb0 kb1 db)
+    (ha : EvJ P off toff K ca σ σ1 (fun r => Represents ta r va) Wa ka0 ka1 da)
+    (hb : EvJ P off toff K cb σ1 σ2 (fun r => Represents tb r vb) Wb kb0 kb1 db)
     (hk : k0 ≤ ka0 ∧ ka1 ≤ k1 ∧ k0 ≤ kb0 ∧ kb1 ≤ k1) :
-    EvJ off toff K (landCode c ta tb ca cb) σ σ2 (fun r => Represents .i32 r (b2i (vb ≠ 0))) (Wa ++ Wb) k0 k1 (max da db) := by
+    EvJ P off toff K (landCode c ta tb ca cb) σ σ2 (fun r => Represents .i32 r (b2i (vb ≠ 0))) (Wa ++ Wb) k0 k1 (max da db) := by
   unfold landCode
-  have h1 : EvJ off toff K (ca ++ (J (cmpZeroSeq ta) ++ [JI.jcc .e ⟨.false_, c⟩])) σ σ1 (fun _ => True) Wa ka0 ka1 da := by
+  have h1 : EvJ P off toff K (ca ++ (J (cmpZeroSeq ta) ++ [JI.jcc .e ⟨.false_, c⟩])) σ σ1 (fun _ => True) Wa ka0 ka1 da := by
     refine ha.then_jrun (fun s hs => ?_)
     obtain ⟨s1, r1, v1, z1, sm1, _⟩ := cmpz_run ta s va hs
     have hc : s1.cond .e = false := by simp [State.cond, z1, hva]
     exact ⟨s1, JRun.append (JRun.ins r1) (JRun.jcc_fall _ v1 hc), trivial, sm1⟩
-  have h2 : EvJ off toff K (cb ++ (J (cmpZeroSeq tb) ++ [JI.jcc .e ⟨.false_, c⟩, JI.ins (iMovImm 1), JI.jmp ⟨.end_, c⟩,
+  have h2 : EvJ P off toff K (cb ++ (J (cmpZeroSeq tb) ++ [JI.jcc .e ⟨.false_, c⟩, JI.ins (iMovImm 1), JI.jmp ⟨.end_, c⟩,
       JI.lbl ⟨.false_, c⟩, JI.ins (iMovImm 0), JI.lbl ⟨.end_, c⟩])) σ1 σ2 (fun r => Represents .i32 r (b2i (vb ≠ 0))) Wb kb0 kb1 db := by
     refine hb.then_jrun (fun s hs => ?_)
     obtain ⟨s1, r1, v1, z1, sm1, _⟩ := cmpz_run tb s vb hs
@@ -442,8 +444,8 @@ theorem EvJ.land_full {ca cb : List JI} {ta tb : ITy} {va vb : Int} {σ σ1 σ2 
 
 /-- ND_LOGOR, left operand not 0: the right operand is skipped -/
 theorem EvJ.lor_short {ca cb : List JI} {ta tb : ITy} {va : Int} {σ σ1 : Env} {Wa : List Nat} {k0 k1 d c : Nat} (hva : va ≠ 0)
-    (ha : EvJ off toff K ca σ σ1 (fun r => Represents ta r va) Wa k0 k1 d) :
-    EvJ off toff K (lorCode c ta tb ca cb) σ σ1 (fun r => Represents .i32 r 1) Wa k0 k1 d := by
+    (ha : EvJ P off toff K ca σ σ1 (fun r => Represents ta r va) Wa k0 k1 d) :
+    EvJ P off toff K (lorCode c ta tb ca cb) σ σ1 (fun r => Represents .i32 r 1) Wa k0 k1 d := by
   unfold lorCode
   refine ha.then_jrun (fun s hs => ?_)
   obtain ⟨s1, r1, v1, z1, sm1, _⟩ := cmpz_run ta s va hs
@@ -459,17 +461,17 @@ theorem EvJ.lor_short {ca cb : List JI} {ta tb : ITy} {va : Int} {σ σ1 : Env} 
 /-- ND_LOGOR, left operand 0: the value is `b != 0` -/
 theorem EvJ.lor_full {ca cb : List JI} {ta tb : ITy} {vb : Int} {σ σ1 σ2 : Env} {Wa Wb : List Nat}
     {k0 k1 ka0 ka1 kb0 kb1 da db c : Nat}
-    (ha : EvJ off toff K ca σ σ1 (fun r => Represents ta r 0) Wa ka0 ka1 da)
-    (hb : EvJ off toff K cb σ1 σ2 (fun r => Represents tb r vb) Wb kb0 kb1 db)
+    (ha : EvJ P off toff K ca σ σ1 (fun r => Represents ta r 0) Wa ka0 ka1 da)
+    (hb : EvJ P off toff K cb σ1 σ2 (fun r => Represents tb r vb) Wb kb0 kb1 db)
     (hk : k0 ≤ ka0 ∧ ka1 ≤ k1 ∧ k0 ≤ kb0 ∧ kb1 ≤ k1) :
-    EvJ off toff K (lorCode c ta tb ca cb) σ σ2 (fun r => Represents .i32 r (b2i (vb ≠ 0))) (Wa ++ Wb) k0 k1 (max da db) := by
+    EvJ P off toff K (lorCode c ta tb ca cb) σ σ2 (fun r => Represents .i32 r (b2i (vb ≠ 0))) (Wa ++ Wb) k0 k1 (max da db) := by
   unfold lorCode
-  have h1 : EvJ off toff K (ca ++ (J (cmpZeroSeq ta) ++ [JI.jcc .ne ⟨.true_, c⟩])) σ σ1 (fun _ => True) Wa ka0 ka1 da := by
+  have h1 : EvJ P off toff K (ca ++ (J (cmpZeroSeq ta) ++ [JI.jcc .ne ⟨.true_, c⟩])) σ σ1 (fun _ => True) Wa ka0 ka1 da := by
     refine ha.then_jrun (fun s hs => ?_)
     obtain ⟨s1, r1, v1, z1, sm1, _⟩ := cmpz_run ta s 0 hs
     have hc : s1.cond .ne = false := by simp [State.cond, z1]
     exact ⟨s1, JRun.append (JRun.ins r1) (JRun.jcc_fall _ v1 hc), trivial, sm1⟩
-  have h2 : EvJ off toff K (cb ++ (J (cmpZeroSeq tb) ++ [JI.jcc .ne ⟨.true_, c⟩, JI.ins (iMovImm 0), JI.jmp ⟨.end_, c⟩,
+  have h2 : EvJ P off toff K (cb ++ (J (cmpZeroSeq tb) ++ [JI.jcc .ne ⟨.true_, c⟩, JI.ins (iMovImm 0), JI.jmp ⟨.end_, c⟩,
       JI.lbl ⟨.true_, c⟩, JI.ins (iMovImm 1), JI.lbl ⟨.end_, c⟩])) σ1 σ2 (fun r => Represents .i32 r (b2i (vb ≠ 0))) Wb kb0 kb1 db := by
     refine hb.then_jrun (fun s hs => ?_)
     obtain ⟨s1, r1, v1, z1, sm1, _⟩ := cmpz_run tb s vb hs
@@ -484,17 +486,17 @@ theorem EvJ.lor_full {ca cb : List JI} {ta tb : ITy} {vb : Int} {σ σ1 σ2 : En
 /-- ND_COND, condition not 0: the second operand is evaluated, the third skipped -/
 theorem EvJ.cond_then {cc ca cb : List JI} {tc : ITy} {vc : Int} {σ σ1 σ2 : Env} {R : BitVec 64 → Prop} {Wc Wa : List Nat}
     {k0 k1 kc0 kc1 ka0 ka1 dc da c : Nat} (hvc : vc ≠ 0)
-    (hc : EvJ off toff K cc σ σ1 (fun r => Represents tc r vc) Wc kc0 kc1 dc)
-    (ha : EvJ off toff K ca σ1 σ2 R Wa ka0 ka1 da)
+    (hc : EvJ P off toff K cc σ σ1 (fun r => Represents tc r vc) Wc kc0 kc1 dc)
+    (ha : EvJ P off toff K ca σ1 σ2 R Wa ka0 ka1 da)
     (hk : k0 ≤ kc0 ∧ kc1 ≤ k1 ∧ k0 ≤ ka0 ∧ ka1 ≤ k1) :
-    EvJ off toff K (condCode c tc cc ca cb) σ σ2 R (Wc ++ Wa) k0 k1 (max dc da) := by
+    EvJ P off toff K (condCode c tc cc ca cb) σ σ2 R (Wc ++ Wa) k0 k1 (max dc da) := by
   unfold condCode
-  have h1 : EvJ off toff K (cc ++ (J (cmpZeroSeq tc) ++ [JI.jcc .e ⟨.else_, c⟩])) σ σ1 (fun _ => True) Wc kc0 kc1 dc := by
+  have h1 : EvJ P off toff K (cc ++ (J (cmpZeroSeq tc) ++ [JI.jcc .e ⟨.else_, c⟩])) σ σ1 (fun _ => True) Wc kc0 kc1 dc := by
     refine hc.then_jrun (fun s hs => ?_)
     obtain ⟨s1, r1, v1, z1, sm1, _⟩ := cmpz_run tc s vc hs
     have hcc : s1.cond .e = false := by simp [State.cond, z1, hvc]
     exact ⟨s1, JRun.append (JRun.ins r1) (JRun.jcc_fall _ v1 hcc), trivial, sm1⟩
-  have h2 : EvJ off toff K (ca ++ (JI.jmp ⟨.end_, c⟩ :: ((JI.lbl ⟨.else_, c⟩ :: cb) ++ [JI.lbl ⟨.end_, c⟩]))) σ1 σ2 R Wa ka0 ka1 da :=
+  have h2 : EvJ P off toff K (ca ++ (JI.jmp ⟨.end_, c⟩ :: ((JI.lbl ⟨.else_, c⟩ :: cb) ++ [JI.lbl ⟨.end_, c⟩]))) σ1 σ2 R Wa ka0 ka1 da :=
     ha.then_jrun (fun s hs => ⟨s, JRun.jmp_skip _ _ s, hs, Same.refl s⟩)
   have := EvJ.seq h1 h2 hk
   simpa [List.append_assoc] using this
@@ -502,18 +504,18 @@ theorem EvJ.cond_then {cc ca cb : List JI} {tc : ITy} {vc : Int} {σ σ1 σ2 : E
 /-- ND_COND, condition 0: the second operand is skipped, the third evaluated -/
 theorem EvJ.cond_else {cc ca cb : List JI} {tc : ITy} {σ σ1 σ2 : Env} {R : BitVec 64 → Prop} {Wc Wb : List Nat}
     {k0 k1 kc0 kc1 kb0 kb1 dc db c : Nat}
-    (hc : EvJ off toff K cc σ σ1 (fun r => Represents tc r 0) Wc kc0 kc1 dc)
-    (hb : EvJ off toff K cb σ1 σ2 R Wb kb0 kb1 db)
+    (hc : EvJ P off toff K cc σ σ1 (fun r => Represents tc r 0) Wc kc0 kc1 dc)
+    (hb : EvJ P off toff K cb σ1 σ2 R Wb kb0 kb1 db)
     (hk : k0 ≤ kc0 ∧ kc1 ≤ k1 ∧ k0 ≤ kb0 ∧ kb1 ≤ k1) :
-    EvJ off toff K (condCode c tc cc ca cb) σ σ2 R (Wc ++ Wb) k0 k1 (max dc db) := by
+    EvJ P off toff K (condCode c tc cc ca cb) σ σ2 R (Wc ++ Wb) k0 k1 (max dc db) := by
   unfold condCode
-  have h1 : EvJ off toff K (cc ++ (J (cmpZeroSeq tc) ++ (JI.jcc .e ⟨.else_, c⟩ :: ((ca ++ [JI.jmp ⟨.end_, c⟩]) ++ [JI.lbl ⟨.else_, c⟩]))))
+  have h1 : EvJ P off toff K (cc ++ (J (cmpZeroSeq tc) ++ (JI.jcc .e ⟨.else_, c⟩ :: ((ca ++ [JI.jmp ⟨.end_, c⟩]) ++ [JI.lbl ⟨.else_, c⟩]))))
       σ σ1 (fun _ => True) Wc kc0 kc1 dc := by
     refine hc.then_jrun (fun s hs => ?_)
     obtain ⟨s1, r1, v1, z1, sm1, _⟩ := cmpz_run tc s 0 hs
     have hcc : s1.cond .e = true := by simp [State.cond, z1]
     exact ⟨s1, JRun.append (JRun.ins r1) (JRun.jcc_skip _ _ v1 hcc), trivial, sm1⟩
-  have h2 : EvJ off toff K (cb ++ [JI.lbl ⟨.end_, c⟩]) σ1 σ2 R Wb kb0 kb1 db :=
+  have h2 : EvJ P off toff K (cb ++ [JI.lbl ⟨.end_, c⟩]) σ1 σ2 R Wb kb0 kb1 db :=
     hb.then_jrun (fun s hs => ⟨s, JRun.lbl _ s, hs, Same.refl s⟩)
   have := EvJ.seq h1 h2 hk
   simpa [List.append_assoc] using this
